@@ -201,3 +201,71 @@ class traj_xyz(FnContract):
         xl = [ar[0] for (k, ar, kw) in a.axarr[2].calls if k == "xlabel"]
         yield Clause("x_axis_label_says_time_or_index", len(xl) == 1 and (("$t$ (s)" in xl[0]) if "timestamps" in t.__dict__
                                                                           else xl[0] == "index"), role="prop")
+
+
+@register
+class add_start_end_markers(FnContract):
+    name = PL + "add_start_end_markers"
+    props = ["C20"]
+
+    def cases(self):
+        return [{"mode": m} for m in MODES]
+
+    def args(self, c, mode="xy"):
+        m = _plot_module()
+        t = tm.mk_traj(c, session.loader(), "t", "all", stamps=False)
+        return dict(ax=GAxes(), plot_mode=getattr(m.PlotMode, mode), traj=t, start_symbol="o", start_color="black", end_symbol="x",
+                    end_color="black", alpha=1.0, traj_name=None)
+
+    def post(self, c, a, res):
+        nm = a.plot_mode.name
+        t = a.traj
+        n, xyz = t._n, t._positions_xyz
+        sc = [ar for (k, ar, kw) in a.ax.calls if k == "scatter"]
+        yield Clause("two_markers", len(sc) == 2, role="prop")
+        if len(sc) != 2:
+            return
+        for which, ar, row in (("start", sc[0], xyz.row(0)), ("end", sc[1], xyz.row(n - 1))):
+            ok = len(ar) == len(nm)
+            yield Clause("%s_marker_has_one_coordinate_per_plotted_axis" % which, ok, role="prop")
+            if ok:
+                yield Clause("%s_marker_at_the_%s_pose's_own_coordinates" % (which, "first" if which == "start" else "last"),
+                             c.And(*[ar[i] == row[AX[letter]] for i, letter in enumerate(nm)]), role="prop")
+
+
+@register
+class speeds(FnContract):
+    name = PL + "speeds"
+    props = ["C20"]
+
+    def cases(self):
+        return [{"start": False}, {"start": True}]
+
+    def args(self, c, start=False):
+        _plot_module()
+        t = tm.mk_traj(c, session.loader(), "t", "all", stamps=True)
+        c.assume(t._n >= 2)
+        t.speeds_ghost = c.array("speeds", t._n - 1)
+        # the speed values themselves are C08's business (calc_speed): here an opaque array of n-1 values
+        type(t).speeds = property(lambda self: self.__dict__.get("speeds_ghost"))
+        st = c.real("start_timestamp") if start else None
+        if start:
+            c.assume(st != 0)
+        return dict(ax=GAxes(), traj=t, style="-", color="black", label="", alpha=1.0, start_timestamp=st)
+
+    def post(self, c, a, res):
+        t = a.traj
+        n = t._n
+        lines = [ar for (k, ar, kw) in a.ax.calls if k == "plot"]
+        ok = len(lines) == 1 and len(lines[0]) >= 2
+        yield Clause("one_line", ok, role="prop")
+        if not ok:
+            return
+        xs, ys = lines[0][0], lines[0][1]
+        off = a.start_timestamp if a.start_timestamp is not None else 0
+        yield Clause("speed_values_passed_on_in_order", ys is t.speeds_ghost, role="prop")
+        yield Clause("each_speed_shown_at_the_timestamp_of_the_newer_pose_shifted_by_the_start_time", isinstance(xs, sym.SArr) and c.And(
+            xs.shape[0] == n - 1, c.forall(n - 1, lambda k: xs.row(k) == t.timestamps.row(k + 1) - off)), role="prop")
+        xl = [ar[0] for (k, ar, kw) in a.ax.calls if k == "xlabel"]
+        yl = [ar[0] for (k, ar, kw) in a.ax.calls if k == "ylabel"]
+        yield Clause("labels_say_time_and_speed", xl == ["$t$ (s)"] and len(yl) == 1 and "m/s" in yl[0], role="prop")
